@@ -43,22 +43,23 @@ ASSUMPTIONS = [
 
 
 def _left(ck, budget):
-    return max(60, int(budget - (time.time() - ck.t0)))
+    return max(12, int(budget - (time.time() - ck.t0)))
 
 
 def run(ck):
     exe = build(ck)["h_c02"]
     quick = ck.tier == "quick"
-    budget = 215 if quick else 2250          # seconds for the enumeration parts (build and replays come on top)
+    budget = 200 if quick else 2250          # seconds for the enumeration parts (build and replays come on top)
     J = 16
     if quick:
-        ck.enum(exe, ["--part=bytes2"], "bytes2", batch=400, deadline_s=_left(ck, budget), timeout_ms=10000, jobs=J)
-        ck.enum(exe, ["--part=class", "--class-len=3"], "class3", batch=400, deadline_s=_left(ck, budget), timeout_ms=10000, jobs=J)
+        # most valuable first; every part has a deadline, so the tier ends in time and says what was completed
         ck.enum(exe, ["--part=sweep", "--maxlocals=6"], "sweep-locals6", batch=150, deadline_s=_left(ck, budget), timeout_ms=20000, jobs=J)
         ck.enum(exe, ["--part=sweep"], "sweep", batch=100, deadline_s=_left(ck, budget), timeout_ms=20000, jobs=J)
         ck.enum(exe, ["--part=hist", "--hist-len=2"], "hist2", batch=25, deadline_s=_left(ck, budget), timeout_ms=20000, jobs=J)
-        ck.enum(exe, ["--part=tok", "--tok-len=3"], "tok3", batch=400, deadline_s=_left(ck, budget), timeout_ms=10000, jobs=J)
         ck.enum(exe, ["--part=edit", "--edit-subst-progs=12"], "edit-d40-s12", batch=300, deadline_s=_left(ck, budget), timeout_ms=10000, jobs=J)
+        ck.enum(exe, ["--part=tok", "--tok-len=3"], "tok3", batch=400, deadline_s=_left(ck, budget), timeout_ms=10000, jobs=J)
+        ck.enum(exe, ["--part=bytes2", "--to=65793"], "bytes2-fd", batch=400, deadline_s=_left(ck, budget), timeout_ms=10000, jobs=J)
+        ck.enum(exe, ["--part=class", "--class-len=3"], "class3", batch=400, deadline_s=_left(ck, budget), timeout_ms=10000, jobs=J)
         # largest bound last: completes if time allows, otherwise reports how far it got (exhaustive:false for this part only)
         ck.enum(exe, ["--part=tok", "--tok-len=4", "--tok-min=4"], "tok4", batch=500, deadline_s=_left(ck, budget), timeout_ms=10000, jobs=J)
     else:
